@@ -1966,13 +1966,23 @@ Lemma ex_big_facts :
   match file_at 72 (node_kids (res_node r)) 0 with
   | Some (NFile fh _ _, o) => (o =? 72) && negb (attr_large (f_attr fh))
   | _ => false end = true.
-Proof. cbv zeta. repeat split; vm_compute; reflexivity. Qed.
+Proof.
+  cbv zeta.
+  split; [vm_compute; reflexivity|]. split; [vm_compute; reflexivity|].
+  split; [vm_compute; reflexivity|]. split; [vm_compute; reflexivity|].
+  split; [vm_compute; reflexivity|]. split; [vm_compute; reflexivity|].
+  split; vm_compute; reflexivity.
+Qed.
 
 Lemma ex_big_facts' :
   let r := parse_fv dec0 u2s0 nvar0 3 240 ex_big' 0 false in
   is_ok r = true /\ is_vol (res_node r) = true /\ res_pol r = 255 /\
   validate (res_node r) = Ok [] /\ length (node_kids (res_node r)) = 0%nat.
-Proof. cbv zeta. repeat split; vm_compute; reflexivity. Qed.
+Proof.
+  cbv zeta.
+  split; [vm_compute; reflexivity|]. split; [vm_compute; reflexivity|].
+  split; [vm_compute; reflexivity|]. split; vm_compute; reflexivity.
+Qed.
 
 (* every hypothesis of the file-header theorem except the side condition holds, the altered image
    parses (both files have vanished) and validate reports nothing *)
@@ -2003,12 +2013,12 @@ Proof.
   destruct f as [|fh fb fk| |]; try discriminate.
   apply andb_true_iff in F8 as [Fo Fl]. apply Z.eqb_eq in Fo. subst o.
   exists ex_big, ex_big', h, buf, kids, fh, fb, fk.
-  split; [reflexivity|]. split; [exact F4|]. split; [vm_compute; reflexivity|].
-  split; [vm_compute; discriminate|]. split; [exact F5|]. split; [reflexivity|].
+  split; [exact E|]. split; [exact F4|]. split; [vm_compute; reflexivity|].
+  split; [vm_compute; discriminate|]. split; [exact F5|]. split; [exact EA|].
   split; [right; left; lia|]. split; [exact ex_big_change|].
   split.
   - split; [vm_compute; reflexivity|]. split; [vm_compute; discriminate|]. vm_compute; reflexivity.
-  - exists h', buf'. split; [reflexivity|exact G4].
+  - exists h', buf'. split; [exact E'|exact G4].
 Qed.
 
 (* G.2 the body-checksum check of the pinned code (body bytes alone must sum to zero) *)
